@@ -150,10 +150,9 @@ def case_coq(cs):
 
 
 VERDICT_RE = re.compile(r"v_match\s*:=\s*\[(.*?)\];\s*v_wf\s*:=\s*\[(.*?)\];\s*v_cover\s*:=\s*\[(.*?)\]", re.S)
-# code variants in the order of Corr.variants: today's tree; with the offered repair of one / both open findings (new groups
-# clipped to their neighbours = fix3.patch, guarded cancel-delete = fix4.patch); today's tree with one landed repair reverted
-VARIANTS = ["head", "head+clip", "head+safecancel", "rep", "head-b424c13(default cleared)", "head-3695b47(start clamped)",
-            "head-f21700b(schema first)", "head-f36a23d(rename re-keys)"]
+# code variants in the order of Corr.variants: today's tree (every repair has landed) and today's tree with one landed repair reverted
+VARIANTS = ["head", "head-2b62e48(clip)", "head-b424c13(default cleared)", "head-3695b47(start clamped)", "head-f21700b(schema first)",
+            "head-f36a23d(rename re-keys)", "head-b51128b(guarded cancel)"]
 
 WF_KINDS = {"overlap", "unaligned", "unsorted", "dup-id", "id-over-counter", "dangling-index", "dangling-owner", "default-missing",
             "ptview-size", "empty-span", "key-name-mismatch"}
